@@ -171,6 +171,13 @@ type Seq struct {
 	Two   bool
 }
 
+// Ref is a pointer to a variable or struct field that holds a non-struct value (&x, &s.f).
+type Ref struct {
+	Get func() Value
+	Set func(Value)
+	ID  string
+}
+
 type MapV struct {
 	Keys []Value
 	Vals []Value
@@ -295,6 +302,8 @@ func Show(v Value) string {
 		return "[" + strings.Join(ss, ", ") + "]"
 	case *Seq:
 		return fmt.Sprintf("iterator over %d elements", len(v.Elems))
+	case *Ref:
+		return "&" + v.ID
 	case *Struct:
 		return "struct " + types.TypeString(v.Type, nil)
 	case *Ptr:
